@@ -126,6 +126,19 @@ pub fn run(args: &Args) -> Report {
         let label = format!("datagrams nobody reads | datagram_buffer={db} | {}", cfg.describe());
         cases.push(Case { try_unbounded: false, max_k: u32::MAX, label, exec: Box::new(move |r| xfer::exec(&cfg, &or, r)) });
     }
+    // single writes, plain and vectored, longer than one frame may carry (512 KiB): every write completes (possibly
+    // short) and every byte it reports as written becomes readable
+    for (a, b) in [((4u32, 8u32), (2u32, 1u32)), ((1, 1), (16, 3))] {
+        let st = vec![StreamSpec {
+            tag: 1,
+            opener: 0,
+            opener_plan: EndPlan::Split(vec![Op::WV(vec![300_000, 300_000, 300_000]), Op::W(700_000), Op::WV(vec![0, 524_288, 1]), Op::Shutdown], vec![Op::ReadToEof(65_536)]),
+            acceptor_plan: EndPlan::Split(vec![Op::WV(vec![524_287, 0, 2, 5]), Op::W(524_289), Op::Shutdown], vec![Op::ReadToEof(65_536)]),
+        }];
+        let cfg = XferCfg { a, b, cap: 0, streams: st, stream_buffer: 1, one_byte_frames: false, dgram_pingpong: 0, dgram_buffer: 1, drop_mux_when_writers_done: None, extra: xfer::XferExtra::NONE, horizon: 20_000 };
+        let label = format!("single plain and vectored writes longer than a frame | {}", cfg.describe());
+        cases.push(Case { try_unbounded: false, max_k: 1, label, exec: Box::new(move |r| xfer::exec(&cfg, &or, r)) });
+    }
     // the smallest drivers: every interleaving modulo commutation (sleep sets); every reachable quiescent state is judged
     for (a, b) in [((1u32, 1u32), (1u32, 1u32)), ((1, 3), (1, 1)), ((2, 32), (1, 4))] {
         let st = vec![StreamSpec {
